@@ -21,6 +21,7 @@ import (
 	"crypto/rand"
 	"crypto/sha256"
 	"encoding/base64"
+	"encoding/hex"
 	"encoding/json"
 	"fmt"
 	"net/http"
@@ -45,30 +46,57 @@ func init() { streams["C17"] = c17Stream }
 
 // ---------------------------------------------------------------- keys and symbolic cookies
 
-var c17Hash = [][]byte{nil,
-				[]byte("hash-key-1-0123456789abcdef01234"), []byte("hash-key-2-0123456789abcdef01234"), []byte("hash-key-3-0123456789abcdef01234")}
-var c17Block = [][]byte{nil, // 0 = no encryption
-	[]byte("block-key-1-0123"), []byte("block-key-2-0123456789abcdef0123")}
-var c17Names = []string{"state", "pkce", "other"}
+// Keys are byte strings drawn per case (round 4): every length class securecookie / the handler accept, and FAMILIES of related
+// keys (shared prefix of 16 / 24 / 32 / 64 bytes, last byte differs, one a prefix of the other, same hash key with another
+// encrypt key and vice versa). "The same key" = the same bytes as CONFIGURED. Key bytes are 1..255: HMAC pads short keys with zero
+// bytes, so k and k||00 are one MAC key by construction of HMAC (trusted base, see props.d/C17.json); such twins are not generated.
+var c17Names = []string{"state", "pkce", "other", "stat", "states", "pkc", "pkcex", "STATE"}
+
+// c17HashLens: the length classes 16, 24, 32, 33-63, 64, 65-128
+var c17HashLens = [][]int{{16}, {24}, {32}, {33, 40, 48, 63}, {64}, {65, 66, 80, 96, 127, 128}}
+var c17BlockLens = []int{0, 0, 16, 24, 32}
+
+type c17KeyPair struct{ hk, bk []byte }
+
+func (p c17KeyPair) id() string { return string(p.hk) + "\x00|" + string(p.bk) }
 
 type c17Codecs struct {
-	sc map[[2]int]*securecookie.SecureCookie
+	sc   map[string]*securecookie.SecureCookie
+	ring []c17KeyPair // the key pairs in play in the current case (the RP's own pair first)
 }
 
 func newC17Codecs() *c17Codecs {
-	c := &c17Codecs{sc: map[[2]int]*securecookie.SecureCookie{}}
-	for h := 1; h < len(c17Hash); h++ {
-		for b := 0; b < len(c17Block); b++ {
-			c.sc[[2]int{h, b}] = securecookie.New(c17Hash[h], c17Block[b])
+	return &c17Codecs{sc: map[string]*securecookie.SecureCookie{}}
+}
+
+// get: the harness's OWN codec for a key pair (securecookie.New directly, not through the code under test)
+func (c *c17Codecs) get(hk, bk []byte) *securecookie.SecureCookie {
+	p := c17KeyPair{hk, bk}
+	if s, ok := c.sc[p.id()]; ok {
+		return s
+	}
+	if len(c.sc) > 4096 {
+		c.sc = map[string]*securecookie.SecureCookie{}
+	}
+	s := securecookie.New(hk, bk)
+	c.sc[p.id()] = s
+	return s
+}
+
+func (c *c17Codecs) use(hk, bk []byte) {
+	p := c17KeyPair{hk, bk}
+	for _, q := range c.ring {
+		if q.id() == p.id() {
+			return
 		}
 	}
-	return c
+	c.ring = append(c.ring, p)
 }
 
 // symCookie: what a cookie value IS, found out with the real library (independent of the code under test)
 type symCookie struct {
 	minted bool
-	hk, bk int
+	hk, bk []byte
 	name   string // cookie name it was minted for
 	value  string // content
 }
@@ -77,25 +105,128 @@ func (c *c17Codecs) classify(raw string) symCookie {
 	if raw == "" {
 		return symCookie{}
 	}
-	for h := 1; h < len(c17Hash); h++ {
-		for b := 0; b < len(c17Block); b++ {
-			for _, n := range c17Names {
-				var v string
-				if c.sc[[2]int{h, b}].Decode(n, raw, &v) == nil {
-					return symCookie{minted: true, hk: h, bk: b, name: n, value: v}
-				}
+	for _, p := range c.ring {
+		sc := c.get(p.hk, p.bk)
+		for _, n := range c17Names {
+			var v string
+			if sc.Decode(n, raw, &v) == nil {
+				return symCookie{minted: true, hk: p.hk, bk: p.bk, name: n, value: v}
 			}
 		}
 	}
 	return symCookie{}
 }
 
-func (c *c17Codecs) mint(hk, bk int, name, value string) string {
-	s, err := c.sc[[2]int{hk, bk}].Encode(name, value)
+func (c *c17Codecs) mint(hk, bk []byte, name, value string) string {
+	c.use(hk, bk)
+	s, err := c.get(hk, bk).Encode(name, value)
 	if err != nil {
 		return ""
 	}
 	return s
+}
+
+func c17Hex(b []byte) string { return hex.EncodeToString(b) }
+
+func c17RandBytes(r *hx.Rand, n int) []byte {
+	b := make([]byte, n)
+	for i := range b {
+		b[i] = byte(1 + r.Intn(255))
+	}
+	return b
+}
+
+func c17HashClass(n int) string {
+	switch {
+	case n == 16 || n == 24 || n == 32 || n == 64:
+		return fmt.Sprint(n)
+	case n < 16:
+		return "<16"
+	case n < 32:
+		return "17-31"
+	case n < 64:
+		return "33-63"
+	case n <= 128:
+		return "65-128"
+	}
+	return ">128"
+}
+
+func c17NewKeyPair(r *hx.Rand) c17KeyPair {
+	cls := c17HashLens[r.Intn(len(c17HashLens))]
+	p := c17KeyPair{hk: c17RandBytes(r, cls[r.Intn(len(cls))])}
+	if n := c17BlockLens[r.Intn(len(c17BlockLens))]; n > 0 {
+		p.bk = c17RandBytes(r, n)
+	}
+	return p
+}
+
+var c17HashFamilies = []string{"unrelated", "prefix16", "prefix24", "prefix32", "prefix64", "lastbyte", "shorter", "longer"}
+
+// c17RelatedHash: another hash key (different bytes) of the given family
+func c17RelatedHash(r *hx.Rand, own []byte, fam string) []byte {
+	for {
+		var k []byte
+		switch fam {
+		case "prefix16", "prefix24", "prefix32", "prefix64": // the first N bytes shared, different afterwards
+			n := map[string]int{"prefix16": 16, "prefix24": 24, "prefix32": 32, "prefix64": 64}[fam]
+			if n > len(own) {
+				n = len(own)
+			}
+			tail := len(own) - n // same length as the RP's key, or another one
+			if tail == 0 || r.Chance(40) {
+				tail = 1 + r.Intn(40)
+			}
+			k = append(append([]byte{}, own[:n]...), c17RandBytes(r, tail)...)
+		case "lastbyte":
+			k = append([]byte{}, own...)
+			k[len(k)-1] = byte(1 + (int(k[len(k)-1])+r.Intn(254))%255)
+		case "shorter": // a proper prefix of the RP's key
+			cut := []int{1, 2}
+			for _, b := range []int{16, 24, 32, 64} {
+				if len(own) > b {
+					cut = append(cut, len(own)-b)
+				}
+			}
+			d := cut[r.Intn(len(cut))]
+			if d >= len(own) {
+				d = len(own) - 1
+			}
+			k = append([]byte{}, own[:len(own)-d]...)
+		case "longer": // the RP's key is a proper prefix of it
+			k = append(append([]byte{}, own...), c17RandBytes(r, 1+r.Intn(40))...)
+		default:
+			cls := c17HashLens[r.Intn(len(c17HashLens))]
+			k = c17RandBytes(r, cls[r.Intn(len(cls))])
+		}
+		if len(k) > 0 && string(k) != string(own) {
+			return k
+		}
+	}
+}
+
+// c17RelatedBlock: another encrypt key (different bytes): none <-> some, another length class, a prefix / an extension (AES-256 key
+// vs. its first 16 / 24 bytes), last byte differs
+func c17RelatedBlock(r *hx.Rand, own []byte) []byte {
+	for {
+		var k []byte
+		switch x := r.Intn(5); {
+		case len(own) == 0 || x == 0:
+			k = c17RandBytes(r, hx.Pick(r, 16, 24, 32))
+		case x == 1:
+			k = nil
+		case x == 2 && len(own) > 16: // a prefix that is a usable AES key itself
+			k = append([]byte{}, own[:hx.Pick(r, 16, len(own)-8)]...)
+		case x == 3 && len(own) < 32:
+			k = append(append([]byte{}, own...), c17RandBytes(r, 8)...)
+		default:
+			k = append([]byte{}, own...)
+			k[len(k)-1] = byte(1 + (int(k[len(k)-1])+r.Intn(254))%255)
+		}
+		if string(k) != string(own) {
+			return k
+		}
+	}
 }
 
 func c17S256(v string) string {
@@ -162,7 +293,8 @@ func (failSigner) Options() jose.SignerOptions { return jose.SignerOptions{} }
 
 type c17RP struct {
 	party      rp.RelyingParty
-	hk, bk     int
+	hk, bk     []byte   // the keys the cookie handler is CONFIGURED with
+	chOpts     []string // its functional options, in order
 	pkce       bool
 	signer     int // 0 none, 1 works, 2 fails
 	clientID   string
@@ -174,7 +306,7 @@ type c17RP struct {
 }
 
 func (c *c17RP) cfgKV(l *hx.Line) {
-	l.I("hk", int64(c.hk)).I("bk", int64(c.bk)).B("pkce", c.pkce).I("sg", int64(c.signer)).S("cid", c.clientID).S("ruri", c.redirect).L("sc", c.scopes)
+	l.S("hk", c17Hex(c.hk)).S("bk", c17Hex(c.bk)).L("chopts", c.chOpts).B("pkce", c.pkce).I("sg", int64(c.signer)).S("cid", c.clientID).S("ruri", c.redirect).L("sc", c.scopes)
 }
 
 func paramKV(l *hx.Line, ps [][2]string) {
@@ -196,8 +328,12 @@ func urlParamOpts(ps [][2]string) []rp.URLParamOpt {
 
 var c17Signer jose.Signer
 
-func newC17RP(r *hx.Rand, tokenURL string, force map[string]int) (*c17RP, error) {
-	c := &c17RP{hk: 1 + r.Intn(len(c17Hash)-1), bk: r.Intn(len(c17Block))}
+func newC17RP(r *hx.Rand, tokenURL string, force map[string]int, keys *c17KeyPair) (*c17RP, error) {
+	if keys == nil {
+		p := c17NewKeyPair(r)
+		keys = &p
+	}
+	c := &c17RP{hk: keys.hk, bk: keys.bk}
 	c.pkce = !r.Chance(25)
 	if v, ok := force["pkce"]; ok {
 		c.pkce = v == 1
@@ -224,11 +360,36 @@ func newC17RP(r *hx.Rand, tokenURL string, force map[string]int) (*c17RP, error)
 	if r.Chance(20) {
 		c.maxAge = 3600
 	}
-	chOpts := []httphelper.CookieHandlerOpt{httphelper.WithUnsecure()}
-	if c.maxAge > 0 {
-		chOpts = append(chOpts, httphelper.WithMaxAge(c.maxAge))
+	// the handler's functional options, in random order (none of them may touch the keys)
+	type chOpt struct {
+		tag string
+		opt httphelper.CookieHandlerOpt
 	}
-	handler := httphelper.NewCookieHandler(c17Hash[c.hk], c17Block[c.bk], chOpts...)
+	cands := []chOpt{{"unsecure", httphelper.WithUnsecure()}}
+	if c.maxAge > 0 {
+		cands = append(cands, chOpt{fmt.Sprintf("maxage:%d", c.maxAge), httphelper.WithMaxAge(c.maxAge)})
+	}
+	if r.Chance(25) {
+		ss := hx.Pick(r, http.SameSiteLaxMode, http.SameSiteStrictMode, http.SameSiteNoneMode)
+		cands = append(cands, chOpt{fmt.Sprintf("samesite:%d", int(ss)), httphelper.WithSameSite(ss)})
+	}
+	if r.Chance(20) {
+		p := hx.Pick(r, "/", "/app", "/callback")
+		cands = append(cands, chOpt{"path:" + p, httphelper.WithPath(p)})
+	}
+	if r.Chance(15) {
+		cands = append(cands, chOpt{"domain:rp.local", httphelper.WithDomain("rp.local")})
+	}
+	for i := len(cands) - 1; i > 0; i-- {
+		j := r.Intn(i + 1)
+		cands[i], cands[j] = cands[j], cands[i]
+	}
+	var chOpts []httphelper.CookieHandlerOpt
+	for _, o := range cands {
+		c.chOpts = append(c.chOpts, o.tag)
+		chOpts = append(chOpts, o.opt)
+	}
+	handler := httphelper.NewCookieHandler(c.hk, c.bk, chOpts...)
 	opts := []rp.Option{
 		rp.WithAuthStyle(hx.Pick(r, oauth2.AuthStyleInParams, oauth2.AuthStyleInHeader)),
 		rp.WithUnauthorizedHandler(func(w http.ResponseWriter, _ *http.Request, desc string, state string) {
@@ -284,6 +445,14 @@ type c17Gen struct {
 func (g *c17Gen) newBrowser() {
 	g.vsym = map[string]string{}
 	g.fresh = true
+	g.codecs.ring = nil
+}
+
+// useRP: the RP's key pair takes part in this case (cookie values are classified against the pairs in play)
+func (g *c17Gen) useRP(c *c17RP) {
+	g.codecs.use(c.hk, c.bk)
+	g.stats["key.hashlen."+c17HashClass(len(c.hk))]++
+	g.stats[fmt.Sprintf("key.blocklen.%d", len(c.bk))]++
 }
 
 func (g *c17Gen) markFresh(l *hx.Line) {
@@ -316,13 +485,13 @@ func (g *c17Gen) cookieLists(l *hx.Line, p string, cs []c17Cookie, ages []int) {
 			if s.name == "pkce" {
 				val = g.symV(val)
 			}
-			k, hkL, bkL, cn, v = append(k, "m"), append(hkL, fmt.Sprint(s.hk)), append(bkL, fmt.Sprint(s.bk)), append(cn, s.name), append(v, val)
+			k, hkL, bkL, cn, v = append(k, "m"), append(hkL, c17Hex(s.hk)), append(bkL, c17Hex(s.bk)), append(cn, s.name), append(v, val)
 		} else {
 			tag := "junk"
 			if c.value == "" {
 				tag = ""
 			}
-			k, hkL, bkL, cn, v = append(k, "p"), append(hkL, "0"), append(bkL, "0"), append(cn, ""), append(v, tag)
+			k, hkL, bkL, cn, v = append(k, "p"), append(hkL, ""), append(bkL, ""), append(cn, ""), append(v, tag)
 		}
 		if ages != nil {
 			ag = append(ag, fmt.Sprint(ages[i]))
@@ -724,7 +893,7 @@ func (g *c17Gen) loginLine(c *c17RP, cls string, a *c17Attempt, sched string) *h
 	paramKV(l, c.loginParam)
 	l.S("st", a.state).I("maxage", int64(c.maxAge))
 	// oracles: can securecookie encode the state / a verifier; the verifier this response stored
-	own := g.codecs.sc[[2]int{c.hk, c.bk}]
+	own := g.codecs.get(c.hk, c.bk)
 	_, errS := own.Encode("state", a.state)
 	l.B("es", errS == nil).B("ep", true)
 	var cs []c17Cookie
@@ -836,22 +1005,27 @@ func flip(r *hx.Rand, s string) string {
 	return string(b)
 }
 
-// otherKeys picks a key pair that differs from the RP's in the hash key, the block key or both
-func otherKeys(r *hx.Rand, c *c17RP, what string) (int, int) {
-	hk, bk := c.hk, c.bk
+// otherKeys picks a key pair that differs (as bytes) from the RP's in the hash key, the encrypt key or both; the other hash key comes
+// from a family of RELATED keys (shared prefix, last byte, prefix / extension) most of the time
+func (g *c17Gen) otherKeys(c *c17RP, what string) (hk, bk []byte, fam string) {
+	hk, bk = c.hk, c.bk
+	fam = "samehash"
 	if what == "hash" || what == "both" {
-		hk = 1 + (c.hk+r.Intn(len(c17Hash)-2))%(len(c17Hash)-1)
+		fam = c17HashFamilies[g.r.Intn(len(c17HashFamilies))]
+		hk = c17RelatedHash(g.r, c.hk, fam)
 	}
 	if what == "block" || what == "both" {
-		bk = (c.bk + 1 + r.Intn(len(c17Block)-1)) % len(c17Block)
+		bk = c17RelatedBlock(g.r, c.bk)
 	}
-	return hk, bk
+	g.stats["key.family."+fam]++
+	g.stats["key.other."+what]++
+	return hk, bk, fam
 }
 
 // ---------------------------------------------------------------- part 1: single callbacks over explicit jars
 
 var c17CookieDefects = []string{"valid", "missing", "hash", "block", "both", "othername", "renamed", "truncated", "flipped", "junk", "empty",
-	"othervalue", "emptyvalue", "dup-junk-first", "dup-valid-first", "latevalue", "nulvalue"}
+	"othervalue", "emptyvalue", "dup-junk-first", "dup-valid-first", "latevalue", "nulvalue", "prefixname"}
 var c17QueryShapes = []string{"match", "differs", "absent", "empty", "dup-match-first", "dup-other-first", "body-overrides", "body-match", "error", "nocode",
 	"late-flip", "late-trunc", "cut64", "extended", "nul-pad", "nul-strip", "case-swap"}
 
@@ -959,7 +1133,7 @@ func (g *c17Gen) unusualState(c *c17RP) string {
 		}
 	}
 	s := string(b)
-	own := g.codecs.sc[[2]int{c.hk, c.bk}]
+	own := g.codecs.get(c.hk, c.bk)
 	for {
 		if _, err := own.Encode("state", s); err == nil || len(s) < 8 {
 			break
@@ -989,14 +1163,20 @@ func (g *c17Gen) defectCookies(c *c17RP, name, content, otherRaw, defect string)
 	case "missing":
 		return nil
 	case "hash", "block", "both":
-		hk, bk := otherKeys(g.r, c, defect)
+		hk, bk, _ := g.otherKeys(c, defect)
 		return []c17Cookie{{name, g.codecs.mint(hk, bk, name, content)}}
 	case "othername": // signed by the RP, but for another cookie name
 		on := "other"
-		if g.r.Bool() {
+		switch x := g.r.Intn(4); {
+		case x < 2:
 			on = map[string]string{"state": "pkce", "pkce": "state"}[name]
+		case x == 2: // a name that is a prefix / an extension / another spelling of this one
+			on = hx.Pick(g.r, map[string][]string{"state": {"stat", "states", "STATE"}, "pkce": {"pkc", "pkcex"}}[name]...)
 		}
 		return []c17Cookie{{name, g.codecs.mint(c.hk, c.bk, on, content)}}
+	case "prefixname": // genuinely signed FOR this name with the right content, but the cookie is CALLED by a prefix / an extension of it
+		as := hx.Pick(g.r, map[string][]string{"state": {"stat", "states", "STATE"}, "pkce": {"pkc", "pkcex"}}[name]...)
+		return []c17Cookie{{as, valid}}
 	case "renamed": // the RP's other cookie replayed under this name
 		return []c17Cookie{{name, otherRaw}}
 	case "truncated":
@@ -1062,12 +1242,13 @@ func (g *c17Gen) query(shape, state, code string) c17Query {
 }
 
 func (g *c17Gen) singleCallback(tokenURL string) {
-	c, err := newC17RP(g.r, tokenURL, nil)
+	c, err := newC17RP(g.r, tokenURL, nil, nil)
 	if err != nil {
 		g.stats["rp.error"]++
 		return
 	}
 	g.newBrowser()
+	g.useRP(c)
 	ex := newC17Exchange(g, c)
 	state := hx.Pick(g.r, "s1", "state-"+fmt.Sprint(g.r.Intn(1000)), "a b&c=d", "ü-state", "", "s1\x00")
 	if g.r.Chance(30) {
@@ -1129,12 +1310,13 @@ func (g *c17Gen) overlappingCallbacks(tokenURL string) {
 	if g.r.Chance(85) {
 		force["pkce"] = 1
 	}
-	c, err := newC17RP(g.r, tokenURL, force)
+	c, err := newC17RP(g.r, tokenURL, force, nil)
 	if err != nil {
 		g.stats["rp.error"]++
 		return
 	}
 	g.newBrowser()
+	g.useRP(c)
 	ex := newC17Exchange(g, c)
 	k := 2 + g.r.Intn(3)
 	var as []*c17CbAttempt
@@ -1176,19 +1358,85 @@ func (g *c17Gen) overlappingCallbacks(tokenURL string) {
 	}
 }
 
-// ---------------------------------------------------------------- part 2: browser histories
+// ---------------------------------------------------------------- part 4: the cookies of ANOTHER handler (tenant / key rotation)
 
-func (g *c17Gen) history(tokenURL string, tier string) {
-	c, err := newC17RP(g.r, tokenURL, nil)
+// crossCallback: two RPs - two tenants, or one RP before and after a key rotation - whose cookie keys differ as bytes (mostly
+// related: shared prefix, last byte, prefix / extension, same hash key with another encrypt key). A REAL login at RP A hands the
+// browser A's state and pkce cookies; the browser then turns up at RP B's callback with them and the matching state parameter.
+func (g *c17Gen) crossCallback(tokenURL string) {
+	force := map[string]int{"pkce": 1}
+	if g.r.Chance(25) {
+		force["pkce"] = 0
+	}
+	b, err := newC17RP(g.r, tokenURL, force, nil)
 	if err != nil {
 		g.stats["rp.error"]++
 		return
 	}
-	foreign, _ := newC17RP(g.r, tokenURL, map[string]int{"pkce": 1})
-	for foreign.hk == c.hk && foreign.bk == c.bk {
-		foreign, _ = newC17RP(g.r, tokenURL, map[string]int{"pkce": 1})
+	what := hx.Pick(g.r, "hash", "hash", "hash", "block", "both")
+	hk, bk, fam := g.otherKeys(b, what)
+	a, err := newC17RP(g.r, tokenURL, force, &c17KeyPair{hk, bk})
+	if err != nil {
+		g.stats["rp.error"]++
+		return
 	}
 	g.newBrowser()
+	g.useRP(b)
+	g.useRP(a)
+	state := fmt.Sprintf("st-cross-%d", g.r.Intn(1000))
+	if g.r.Chance(15) {
+		state = g.unusualState(b)
+	}
+	done, trace := newC17Login(a).run([]string{state}, g.r.Intn)
+	resp := g.loginLine(a, "cross-login", done[0], strings.Join(trace, "."))
+	var fromA []c17Cookie
+	for _, sc := range resp.Cookies() {
+		fromA = append(fromA, c17Cookie{sc.Name, sc.Value})
+	}
+	verifier := base64.RawURLEncoding.EncodeToString([]byte(fmt.Sprintf("verifier-%d", g.r.Intn(1_000_000))))
+	variant := hx.Pick(g.r, "all", "all", "all", "state", "pkce")
+	var jar []c17Cookie
+	switch variant {
+	case "all": // everything the login at A left in the browser
+		jar = fromA
+	case "state": // A's state cookie next to a pkce cookie of B
+		for _, ck := range fromA {
+			if ck.name == "state" {
+				jar = append(jar, ck)
+			}
+		}
+		jar = append(jar, c17Cookie{"pkce", g.codecs.mint(b.hk, b.bk, "pkce", verifier)})
+	default: // B's own state cookie next to A's pkce cookie
+		jar = append(jar, c17Cookie{"state", g.codecs.mint(b.hk, b.bk, "state", state)})
+		for _, ck := range fromA {
+			if ck.name == "pkce" {
+				jar = append(jar, ck)
+			}
+		}
+	}
+	if g.r.Chance(20) {
+		jar = append([]c17Cookie{{"session", g.junk()}}, jar...)
+	}
+	g.stats["cross."+what]++
+	g.stats["cross.variant."+variant]++
+	ex := newC17Exchange(g, b)
+	g.runCallback(b, ex, "cross:"+what+":"+fam+"/"+variant+"/q:match", jar, g.query("match", state, "code-x"), g.r.Chance(10), false)
+}
+
+// ---------------------------------------------------------------- part 2: browser histories
+
+func (g *c17Gen) history(tokenURL string, tier string) {
+	c, err := newC17RP(g.r, tokenURL, nil, nil)
+	if err != nil {
+		g.stats["rp.error"]++
+		return
+	}
+	// another RP (another tenant / this RP before a key rotation): its keys differ from this RP's as bytes, mostly from a related family
+	fhk, fbk, _ := g.otherKeys(c, hx.Pick(g.r, "hash", "hash", "both", "block"))
+	foreign, _ := newC17RP(g.r, tokenURL, map[string]int{"pkce": 1}, &c17KeyPair{fhk, fbk})
+	g.newBrowser()
+	g.useRP(c)
+	g.useRP(foreign)
 	login := newC17Login(c)
 	foreignLogin := newC17Login(foreign)
 	ex := newC17Exchange(g, c)
@@ -1393,6 +1641,8 @@ func c17Stream(r *hx.Rand, tier string, n int, w *bufio.Writer) map[string]int {
 			g.history(tokenURL, tier)
 		case x < 26:
 			g.overlappingCallbacks(tokenURL)
+		case x < 36:
+			g.crossCallback(tokenURL)
 		default:
 			g.singleCallback(tokenURL)
 		}
